@@ -17,10 +17,11 @@ if [ $COQCHK = 1 ]; then
   # independent re-check of every Props module and everything it depends on (stdlib and libraries included), one
   # coqchk process per module, eight at a time; the axiom summaries are concatenated into evidence/coqchk.txt
   rm -rf ../evidence/coqchk.d; mkdir -p ../evidence/coqchk.d
-  # Props/C02.v is not re-checked by coqchk: it re-evaluates the reflexive proofs of Coq-Interval without the VM and
-  # does not finish within 50 minutes (measured); that file is checked by coqc (make) only.
-  echo "JF.Props.C02 SKIPPED (coqchk does not finish the Coq-Interval proofs within 50 minutes; checked by coqc only)" >> ../evidence/coqchk.d/STATUS
-  ls Props/*.v | grep -v '^Props/C02\.v$' | sed 's|/|.|; s|\.v$||; s|^|JF.|' | xargs -P 8 -I{} sh -c \
+  # Props/C02nonvacuous.v (the non-vacuity EXAMPLES of C02 that are proved with Coq-Interval) is not re-checked by
+  # coqchk: it re-evaluates the reflexive proofs of Coq-Interval without the VM and does not finish within 50 minutes
+  # (measured); that file is checked by coqc (make) only.  Props/C02.v with all theorems of the property IS re-checked.
+  echo "JF.Props.C02nonvacuous SKIPPED (examples only; coqchk does not finish the Coq-Interval proofs within 50 minutes; checked by coqc only)" >> ../evidence/coqchk.d/STATUS
+  ls Props/*.v | grep -v '^Props/C02nonvacuous\.v$' | sed 's|/|.|; s|\.v$||; s|^|JF.|' | xargs -P 8 -I{} sh -c \
     'ulimit -s unlimited; if timeout 1800 coqchk -silent -o -Q . JF {} > ../evidence/coqchk.d/{}.txt 2>&1; then echo "{} checked" >> ../evidence/coqchk.d/STATUS; else echo "{} FAILED" >> ../evidence/coqchk.d/STATUS; fi'
   ( for f in ../evidence/coqchk.d/JF.*.txt; do echo "== $(basename $f .txt)"; cat $f; done; sort ../evidence/coqchk.d/STATUS ) > ../evidence/coqchk.txt
   rm -rf ../evidence/coqchk.d
